@@ -104,10 +104,31 @@ CHECKS = [
         "note": COMMON_NOTE,
         "technique": 'registry extraction; structural equality of constructions; CFG dominance of guards; taint/aggregate analysis restricted to helper functions',
     },
+    {
+        "property_id": "C04",
+        "text": 'Ordering, source and ownership clauses: an order algebra derives the major-to-minor column order at the sites that combine factors (get_interaction_matrix, the two reduce folds, itertools.product in labels/levels) and requires identical conventions; values and labels have one source (codes of the categorical whose categories were coded; labels read from the same contrast object; zero / -1 row index = removed label index); level lists are canonical unless declared; numeric identity through representation changes only; one holder per component; label order = stacking order. NOT decided: point-wise equality of a column with its data.',
+        "design_ref": 'DESIGN.md section 3, C04 (R4.1-R4.6)',
+        "note": COMMON_NOTE,
+        "technique": 'order algebra over loop nests / comprehensions / product / reduce / khatri_rao; def-use identity; order-kind lattice; ownership classification',
+    },
+    {
+        "property_id": "C05",
+        "text": 'Block structure and ordering: factor-major Kronecker order at the training and prediction sites and in labels/groups (order algebra), complete indicators for the factor, trailing conditional new-group block, the reduced-iff rule as written, finite-state abstract interpretation of the implicit-intercept logic of `|` over all 4 states, every (effect, factor) pair formed, no effect object under two factors. NOT decided: rank/span on crossed data and whether the simplified coding rule equals the common-effects rule.',
+        "design_ref": 'DESIGN.md section 3, C05 (R5.1-R5.6)',
+        "note": COMMON_NOTE,
+        "technique": 'order algebra; finite-state abstract interpretation of Model.__or__; CFG must-pass; ownership classification',
+    },
+    {
+        "property_id": "C08",
+        "text": 'Order- and label-independence clauses: canonical level order wherever levels or defaults are picked; permutation-invariant fitting (no positional row access or order-dependent operation on row-ordered values in transforms, registry functions and evaluation code; row-ordered taint that stops at order-invariant reductions); by-name column access only; irrelevant columns cut first and .index read only under len(); the row filter mask comes from the very frame it filters. Not decided: that pandas/numpy primitives are themselves equivariant; floating-point summation order.',
+        "design_ref": 'DESIGN.md section 3, C08 (R8.1-R8.5)',
+        "note": COMMON_NOTE,
+        "technique": 'row-ordered taint with reduction barrier; positional-access lint; reaching-definition identity; order-kind lattice',
+    },
 ]
 PENDING = "claimed in DESIGN.md; its check is not registered in this revision of /verif yet"
 NOT_APPLICABLE = [
     {"property_id": "C03", "reason": "rank and column space of a data-dependent matrix are linear-algebra facts about runtime values; no sound static argument in reach bounds the patsy-style redundancy algorithm for every term family and order"},
     {"property_id": "C13", "reason": "rank, zero-sum and span of contrast matrices for every size/reference are algebraic identities over np.eye/vstack index arithmetic; deciding them needs evaluation or proof, not code shape (index agreement between matrix and labels is decided under C04, option plumbing under C16)"},
     {"property_id": "C14", "reason": "mean zero, unit deviation, partition of unity, orthonormality are numerical identities over all inputs; the only shape-level clause (parameters fitted once and frozen) is decided under C06"},
-] + [{"property_id": p, "reason": PENDING} for p in ["C04", "C05", "C08"]]
+] + [{"property_id": p, "reason": PENDING} for p in []]
